@@ -136,7 +136,7 @@ func (f *Frame) checkCallbackArgs(fn *ssa.Function, c *ssa.CallCommon, args []Va
 			if strings.HasPrefix(k, "new:") || modAllowed(k, allowed) {
 				continue
 			}
-			un.obligeNamed(st, fmt.Sprintf("callback:%s.%s:%s@%s", shortFn(fn.String()), fn.Params[i].Name(), k, un.posOf(pos)), "callback",
+			un.obligeNamed(st, fmt.Sprintf("callback:%s.%s:%s@%s", shortFn(fn.String()), fn.Params[i].Name(), k, un.siteTag("cb:"+fn.String(), pos)), "callback",
 				what+" may modify "+k+", which the callback contract of "+fn.Params[i].Name()+" does not allow", un.posOf(pos), tFalse)
 		}
 	}
@@ -472,6 +472,11 @@ func (f *Frame) contractEnv(ct *Contract, fn *ssa.Function, args []Val, bind []V
 
 func (f *Frame) applyContract(ct *Contract, fn *ssa.Function, sig *types.Signature, args []Val, bind []Val, st *State, pos token.Pos, name string) Val {
 	un := f.un
+	if ct.Pkg != "" {
+		saved := f.clausePkg
+		f.clausePkg = ct.Pkg
+		defer func() { f.clausePkg = saved }()
+	}
 	env := f.contractEnv(ct, fn, args, bind, st)
 	// preconditions that hold for calls from this particular caller (callsite contracts)
 	if !f.pure {
@@ -497,7 +502,7 @@ func (f *Frame) applyContract(ct *Contract, fn *ssa.Function, sig *types.Signatu
 				for _, rq := range sc.Requires {
 					gs := f.evalGoals(rq, senv, st, &f.top().entry)
 					for gi, g := range gs {
-						un.obligeNamed(st, fmt.Sprintf("site:%s#%s%s@%s", shortFn(name), rq.label(), partSuffix(gi, len(gs)), un.posOf(pos)), "callsite", rq.Text, un.posOf(pos), g)
+						un.obligeNamed(st, fmt.Sprintf("site:%s#%s%s@%s", shortFn(name), rq.label(), partSuffix(gi, len(gs)), un.siteTag(name, pos)), "callsite", rq.Text, un.posOf(pos), g)
 					}
 				}
 			}
@@ -514,7 +519,7 @@ func (f *Frame) applyContract(ct *Contract, fn *ssa.Function, sig *types.Signatu
 				}
 			}
 		}
-		un.obligeNamed(st, fmt.Sprintf("escape:%s@%s", shortFn(name), un.posOf(pos)), "escape", "a panic of "+shortFn(name)+" is recovered by a deferred function of "+top.fn.Name(), un.posOf(pos), goal)
+		un.obligeNamed(st, fmt.Sprintf("escape:%s@%s", shortFn(name), un.siteTag(name, pos)), "escape", "a panic of "+shortFn(name)+" is recovered by a deferred function of "+top.fn.Name(), un.posOf(pos), goal)
 	}
 	for _, rq := range ct.Requires {
 		if f.pure {
@@ -524,7 +529,7 @@ func (f *Frame) applyContract(ct *Contract, fn *ssa.Function, sig *types.Signatu
 		un.ord["call"]++
 		gs := f.evalGoals(rq, env, st, st)
 		for gi, g := range gs {
-			un.obligeNamed(st, fmt.Sprintf("pre:%s#%s%s@%s", shortFn(name), rq.label(), partSuffix(gi, len(gs)), un.posOf(pos)), "precondition", rq.Text, un.posOf(pos), g)
+			un.obligeNamed(st, fmt.Sprintf("pre:%s#%s%s@%s", shortFn(name), rq.label(), partSuffix(gi, len(gs)), un.siteTag(name, pos)), "precondition", rq.Text, un.posOf(pos), g)
 		}
 	}
 	old := st.clone()
@@ -1275,12 +1280,12 @@ func (f *Frame) goCall(x *ssa.Go, st *State) {
 		}
 		for _, rq := range sc.Requires {
 			g := f.evalClause(rq, senv, st, &f.top().entry)
-			un.obligeNamed(st, fmt.Sprintf("site:go %s#%s@%s", shortFn(name), rq.label(), un.posOf(x.Pos())), "callsite", rq.Text, un.posOf(x.Pos()), g)
+			un.obligeNamed(st, fmt.Sprintf("site:go %s#%s@%s", shortFn(name), rq.label(), un.siteTag("go:"+name, x.Pos())), "callsite", rq.Text, un.posOf(x.Pos()), g)
 		}
 	}
 	for _, rq := range ct.Requires {
 		g := f.evalClause(rq, env, st, st)
-		un.obligeNamed(st, fmt.Sprintf("pre:go %s#%s@%s", shortFn(name), rq.label(), un.posOf(x.Pos())), "precondition", rq.Text, un.posOf(x.Pos()), g)
+		un.obligeNamed(st, fmt.Sprintf("pre:go %s#%s@%s", shortFn(name), rq.label(), un.siteTag("go:"+name, x.Pos())), "precondition", rq.Text, un.posOf(x.Pos()), g)
 	}
 	old := st.clone()
 	f.applyRecords(ct, env, st, &old)
